@@ -7,6 +7,7 @@ from manifest_table import CHECKS, PENDING
 
 ALL = ["C%02d" % i for i in range(1, 21)]
 GIANT = {"C01", "C02", "C03", "C07", "C08", "C09", "C11", "C16"}
+MSAN_NOTE = (" A third binary - the same harness built with -fsanitize=memory - runs a smaller input space (no B(n), shallower DFS) beside them and is merged in as well.")
 GIANT_NOTE = (" In addition the giant cases of harness/chk_giant.c (definite byte / text strings of 2^32-1, 2^32 and 2^32+24 bytes with real payloads, "
               "gcc -O2, functional oracle) run beside the main binary and are merged into the same evidence file; they need 24 GiB of available memory and are "
               "reported as not run (exhaustive: false) otherwise.")
@@ -23,7 +24,7 @@ for pid in ALL:
         "replay_cmd_template": "./vf replay {path}",
         "engine": c["engine"],
         "level_claimed": {"category": c["category"], "text": c["text"], "design_ref": c["design_ref"]},
-        "level_note": c["note"] + (GIANT_NOTE if pid in GIANT else ""),
+        "level_note": c["note"] + (GIANT_NOTE if pid in GIANT else "") + (MSAN_NOTE if pid == "C02" else ""),
         "technique": c["technique"],
     })
 na = [{"property_id": p, "reason": PENDING.get(p, "check not implemented yet in this round; planned explorer described in DESIGN.md section 5")} for p in ALL if p not in CHECKS]
